@@ -37,6 +37,9 @@ C['C11'] = ("model_checking",
 C['C05'] = ("model_checking",
  "GpgStatus.tla: the status-line scanner of verify_file against GpgRef!AcceptSig (good, valid, validity >= marginal, no EXPKEYSIG/REVKEYSIG, exit 0), failure kinds and monotonicity in the trust level, for ALL sequences up to length 4 (quick) / 5 (thorough) over gpg's vocabulary x 3 exit codes (TLC exhibits the historical TRUST_FULL defect). The same sequences are replayed into the real SystemGPGEnvironment.verify_file and ManifestFile.load with subprocess.Popen substituted; with real gpg every key state x owner-trust level is run through IsolatedGPGEnvironment (real status output recorded and judged, environment model checked as drift), a signed Manifest is tampered character by character, and `gemato verify -K -R` is run for every combination of -s, -P, key-file content and user-keyring content with byte snapshots of the user keyring; TraceGpg.tla judges every record.",
  "gpg 2.2.40 is the oracle for real runs; network key refresh is out of reach offline (-R always); signing-subkey-without-binding states are not generated.")
+C['C14'] = ("model_checking",
+ "Signing.tla models save_manifests' sign decision for the top-level Manifest (also when it is renamed by (de)compression during the save), the sub-Manifests and a failing signer over the full option matrix; TLC checks signed-iff-wanted, sub-Manifests-never-signed and failure-reported (and exhibits the historical rename defect). Every combination of sign option x originally signed x key id x usable key x renamed top-level x sub-Manifest format x hostile names is run on the real loader with real gpg; the written files are classified line by line and judged by TraceSigning.tla with FramingRef (the C04 reference), re-verified in a separate verifier home, and the authenticated cleartext is compared with the in-memory entries.",
+ "gpg 2.2.40 and its key handling are trusted; unusable key = public-key-only home or unknown key id (expired secret keys not generated).")
 man = {
  "version": 1,
  "setup_cmd": "cd /verif && ./tools/setup.sh",
